@@ -203,14 +203,14 @@ pub static SOAK_EVERY: std::sync::atomic::AtomicU64 = std::sync::atomic::AtomicU
 pub fn soak_n() -> u64 {
     if cfg!(miri) { 0 } else if sys::cpu_scale() > 1 { 700 } else { 66_000 }
 }
-static SOAK_TICK2: std::sync::atomic::AtomicU64 = std::sync::atomic::AtomicU64::new(0);
-/// compiled cases (run in forked children, which inherit the tick of the moment of the fork)
-pub fn soak_due_compiled() -> bool {
+/// compiled cases run in forked children (a per-process tick would restart with every child):
+/// the choice depends on the case's content instead - one short case in about 4000
+pub fn soak_due_compiled(c: &Case) -> bool {
     if cfg!(miri) {
         return false;
     }
-    let every = SOAK_EVERY.load(std::sync::atomic::Ordering::Relaxed) / 4;
-    every != 0 && SOAK_TICK2.fetch_add(1, std::sync::atomic::Ordering::Relaxed) % every == every / 2
+    let every = SOAK_EVERY.load(std::sync::atomic::Ordering::Relaxed) * 2 / 3;
+    every != 0 && c.hash() % every == 7
 }
 pub fn soak_due(steps: u64) -> bool {
     if cfg!(miri) || steps > 400 {
@@ -371,6 +371,30 @@ pub fn run_interp(c: &Case, bufs: &Bufs, budget: u64, trace_cap: usize) -> Inter
                 if !same {
                     repeat = Some(format!("first execution {:?} ({steps1} steps); execution #{} on the same VM {:?} ({} steps, {} helper calls vs {nlog1})", r.as_ref().map_err(|e| e.chars().take(60).collect::<String>()), k + 3, rk.as_ref().map_err(|e| e.chars().take(60).collect::<String>()), hooks::count(), hlp::log_total()));
                     break;
+                }
+            }
+            // ... and a VM with that many executions behind it must still take a new program: load a
+            // placeholder (runs, returns 0x2a), then the case's program again (same result as at first)
+            if repeat.is_none() && n > 0 {
+                let ld = vm.set_program(&DUMMY_PROG, c.offs);
+                hooks::reset(budget, true);
+                let rd = vm.exec(bufs.pkt_raw(), bufs.mbuff_raw());
+                if ld.is_err() || !matches!(rd, Ok(0x2a)) {
+                    repeat = Some(format!("after {} executions on the same VM, set_program(placeholder returning 0x2a) gave {:?} and executing gave {:?}", n + 2, ld, rd.as_ref().map_err(|e| e.chars().take(60).collect::<String>())));
+                } else {
+                    let ld2 = vm.set_program(&c.prog, c.offs);
+                    bufs.reset(c);
+                    hlp::log_reset();
+                    hooks::reset(budget, true);
+                    let r3 = vm.exec(bufs.pkt_raw(), bufs.mbuff_raw());
+                    let same = ld2.is_ok() && match (&r, &r3) {
+                        (Ok(a), Ok(b)) => a == b,
+                        (Err(_), Err(_)) => true,
+                        _ => false,
+                    } && steps1 == hooks::count() && hash1 == hooks::pc_hash();
+                    if !same {
+                        repeat = Some(format!("after {} executions and a reload of the same program on the same VM: load {:?}, execution {:?} ({} steps), first execution {:?} ({steps1} steps)", n + 3, ld2, r3.as_ref().map_err(|e| e.chars().take(60).collect::<String>()), hooks::count(), r.as_ref().map_err(|e| e.chars().take(60).collect::<String>())));
+                    }
                 }
             }
             // leave the hooks / buffers / log as the first execution left them
@@ -645,11 +669,84 @@ pub fn exec_memory(len: usize) -> &'static mut [u8] {
     }
 }
 
+/// `mov r0, 1001; exit`
+static ELDER_PROG: [u8; 16] = [0xb7, 0, 0, 0, 0xe9, 0x03, 0, 0, 0x95, 0, 0, 0, 0, 0, 0, 0];
+thread_local! {
+    /// a compiled VM that stays alive while this process compiles, runs and drops hundreds of other
+    /// VMs: (vm, engine, other cases seen since it was compiled)
+    static ELDER: std::cell::RefCell<Option<(Vm<'static>, Engine, u32)>> = const { std::cell::RefCell::new(None) };
+}
+
+/// Long-lived compiled VM: created at the first compiled case of a (child) process, re-executed
+/// every 32nd case after it. Code regions, pools or tables shared between VMs inside the crate must
+/// not let later compilations disturb it, however many there are.
+fn elder_check(engine: Engine) -> Option<String> {
+    if cfg!(miri) || engine == Engine::Interp {
+        return None;
+    }
+    ELDER.with(|e| {
+        let mut e = e.borrow_mut();
+        let run = |vm: &mut Vm<'static>| -> Result<u64, String> {
+            match sys::catch(|| unsafe {
+                match engine {
+                    Engine::Jit => vm.exec_jit((std::ptr::null_mut(), 0), (std::ptr::null_mut(), 0)),
+                    #[cfg(feature = "std")]
+                    Engine::Cranelift => vm.exec_cl((std::ptr::null_mut(), 0), (std::ptr::null_mut(), 0)),
+                    _ => Ok(1001),
+                }
+            }) {
+                Ok(r) => r,
+                Err(p) => Err(format!("panic: {p}")),
+            }
+        };
+        match e.as_mut() {
+            Some((vm, eng, seen)) if *eng == engine => {
+                *seen += 1;
+                if *seen % 32 == 0 || (250..=262).contains(seen) {
+                    let r = run(vm);
+                    if r != Ok(1001) {
+                        return Some(format!("a compiled VM (`mov r0, 1001; exit`, {}) kept alive in this process returned {:?} after {} other VMs were compiled, run and dropped", engine.name(), r, seen));
+                    }
+                }
+                None
+            }
+            _ => {
+                let made = sys::catch(|| -> Result<Vm<'static>, String> {
+                    let mut vm = Vm::new(Kind::NoData, Some(&ELDER_PROG), (0, 8))?;
+                    #[cfg(not(any(feature = "std", feature = "stdlite")))]
+                    if engine == Engine::Jit {
+                        let _ = vm.set_jit_exec_memory(exec_memory(8192));
+                    }
+                    match engine {
+                        Engine::Jit => vm.jit_compile()?,
+                        #[cfg(feature = "std")]
+                        Engine::Cranelift => vm.cl_compile()?,
+                        _ => {}
+                    }
+                    Ok(vm)
+                });
+                if let Ok(Ok(mut vm)) = made {
+                    if run(&mut vm) == Ok(1001) {
+                        *e = Some((vm, engine, 0));
+                    }
+                }
+                None
+            }
+        }
+    })
+}
+
 /// Body executed inside the child for one case: compile with `engine`, execute, write record.
 pub fn child_run_case(c: &Case, bufs: &Bufs, engine: Engine, family: Family, out: &mut Vec<u8>) {
     bufs.reset(c);
     hlp::log_reset();
     let mut rec = ChildRec { status: 0, value: 0, msg: String::new(), pkt: Vec::new(), mbuff: Vec::new(), log: Vec::new(), canary_ok: true, soaked: 0 };
+    if let Some(m) = elder_check(engine) {
+        rec.status = 6;
+        rec.msg = m;
+        rec.encode(out);
+        return;
+    }
     let built = sys::catch(|| build_vm(c, family));
     let mut vm = match built {
         Ok(Ok(v)) => v,
@@ -820,7 +917,7 @@ pub fn child_run_case(c: &Case, bufs: &Bufs, engine: Engine, family: Family, out
             }
             // accumulation: one short case in SOAK_EVERY / 4 is executed SOAK_N more times on the
             // same compiled VM, then re-compiled 300 times (executed after each re-compilation)
-            if engine != Engine::Interp && rec.status == 0 && c.prog.len() <= 8 * 64 && soak_due_compiled() {
+            if engine != Engine::Interp && rec.status == 0 && c.prog.len() <= 8 * 64 && soak_due_compiled(c) {
                 let pkt1 = bufs.pkt_bytes();
                 let nlog1 = hlp::log_total();
                 let n = soak_n();
@@ -831,6 +928,42 @@ pub fn child_run_case(c: &Case, bufs: &Bufs, engine: Engine, family: Family, out
                         if engine == Engine::Jit {
                             let need = (c.prog.len() / 8 * 64 + 8192 + 4095) & !4095;
                             let _ = vm.set_jit_exec_memory(exec_memory(need));
+                        }
+                        // the helpers are registered again before every re-compilation - a decoy
+                        // function first, then the right one: the code compiled now must call the
+                        // function registered NOW, however many registrations the VM has seen
+                        for (id, j) in &c.helpers {
+                            let _ = vm.register_helper(*id, helper_for((*j + 1) % hlp::NH, family));
+                            let _ = vm.register_helper(*id, helper_for(*j, family));
+                        }
+                        // every 50th round: a burst of re-loads (placeholder / program alternating, ending
+                        // on the program) of a length around 2^8 or 2^9; compiled code must then be
+                        // reported as missing, whatever the number of loads since it was compiled
+                        if (k - n) % 50 == 7 {
+                            let burst = [254usize, 256, 258, 510, 512, 514][((k - n) / 50 % 6) as usize];
+                            let mut lerr = None;
+                            for b in 0..burst {
+                                let r = if b % 2 == 0 { vm.set_program(&DUMMY_PROG, c.offs) } else { vm.set_program(&c.prog, c.offs) };
+                                if let Err(e) = r {
+                                    lerr = Some(format!("load #{b} of a burst refused: {e}"));
+                                    break;
+                                }
+                            }
+                            let stale = sys::catch(|| unsafe {
+                                match engine {
+                                    Engine::Jit => vm.exec_jit(bufs.pkt_raw(), bufs.mbuff_raw()),
+                                    #[cfg(feature = "std")]
+                                    Engine::Cranelift => vm.exec_cl(bufs.pkt_raw(), bufs.mbuff_raw()),
+                                    _ => Err(String::new()),
+                                }
+                            });
+                            if lerr.is_some() || !matches!(stale, Ok(Err(_))) {
+                                rec.status = 6;
+                                rec.msg = format!("after {burst} consecutive successful set_program calls since the last compilation, executing compiled code gave {:?} instead of the not-compiled error {}", stale.map(|x| x.map_err(|e| e.chars().take(50).collect::<String>())), lerr.unwrap_or_default());
+                                break;
+                            }
+                            bufs.reset(c);
+                            hlp::log_reset();
                         }
                         let rc = sys::catch(|| match engine {
                             Engine::Jit => vm.jit_compile(),
